@@ -106,46 +106,72 @@ std::string observe(Fn&& fn)
 }
 } // namespace
 
+struct Op
+{
+    char kind; // 'p' or 'a'
+    std::vector<Val> vals;
+};
+bool no_nul(const std::string& s) { return s.find('\0') == std::string::npos; }
+// the chain of calls of one case; with cstr = true string arguments of % are passed as const char*
+bool apply_ops(F& f, const std::vector<Op>& ops, bool cstr)
+{
+    for (auto& o : ops)
+    {
+        if (o.kind == 'p')
+        {
+            const Val& v = o.vals[0];
+            switch (v.kind)
+            {
+            case 's':
+                if (cstr && no_nul(v.s)) f % v.s.c_str();
+                else f % v.s;
+                break;
+            case 'i': f % v.l; break;
+            default: f % v.d; break;
+            }
+        }
+        else if (!dispatch_args<MAXN>(f, o.vals))
+            return false;
+    }
+    return true;
+}
+
 static std::string run_case(const std::vector<std::string>& w)
 {
     if (w.size() >= 2 && w[0] == "fmt")
     {
-        F f = nitro::format(vh::unhex(w[1]));
+        std::vector<Op> ops;
         for (std::size_t k = 2; k < w.size(); k++)
         {
             const std::string& o = w[k];
-            if (o.size() < 3 || o[1] != ':') return "BADCASE";
-            if (o[0] == 'p')
-            {
-                Val v;
-                if (!parse_arg(o.substr(2), v)) return "BADCASE";
-                switch (v.kind)
+            if (o.size() < 3 || o[1] != ':' || (o[0] != 'p' && o[0] != 'a')) return "BADCASE";
+            Op op{ o[0], {} };
+            if (o.substr(2) != ".")
+                for (auto& e : vh::split_on(o.substr(2), ','))
                 {
-                case 's': f % v.s; break;
-                case 'i': f % v.l; break;
-                default: f % v.d; break;
+                    Val v;
+                    if (!parse_arg(e, v)) return "BADCASE";
+                    op.vals.push_back(v);
                 }
-            }
-            else if (o[0] == 'a')
-            {
-                std::vector<Val> vs;
-                if (o.substr(2) != ".")
-                    for (auto& e : vh::split_on(o.substr(2), ','))
-                    {
-                        Val v;
-                        if (!parse_arg(e, v)) return "BADCASE";
-                        vs.push_back(v);
-                    }
-                if (!dispatch_args<MAXN>(f, vs)) return "BADCASE";
-            }
-            else
-                return "BADCASE";
+            if (op.kind == 'p' && op.vals.size() != 1) return "BADCASE";
+            ops.push_back(op);
         }
+        const std::string fmt = vh::unhex(w[1]);
+        F f = nitro::format(fmt);
+        if (!apply_ops(f, ops, false)) return "BADCASE";
         const F& cf = f;
         std::string a = observe([&] { return cf.str(); });
         std::string b = observe([&] { std::string s = cf; return s; });
         std::string c = observe([&] { std::ostringstream os; os << cf; return os.str(); });
-        if (a != b || a != c) return "ROUTES-DIFFER str=" + a + " conv=" + b + " os=" + c;
+        std::string d = a;
+        if (no_nul(fmt))
+        {
+            // the const Char* overload of nitro::format, const char* arguments, used as a temporary chain end
+            F g = nitro::format(fmt.c_str());
+            if (!apply_ops(g, ops, true)) return "BADCASE";
+            d = observe([&] { return g.str(); });
+        }
+        if (a != b || a != c || a != d) return "ROUTES-DIFFER str=" + a + " conv=" + b + " os=" + c + " cstr=" + d;
         return a;
     }
     if (w.size() >= 2 && w[0] == "exc")
